@@ -21,6 +21,9 @@ DECIDED = [
     'walks the rows before the target row backwards and falls back to the first row, the end scan walks the rows '
     'after it and falls back to the last row, and the target row is the looked-up row',
     'R3 the -1 sentinel of the look-up raises before it can be used as a subscript',
+    'R4 refutation only: on every row list of length 1-4 with drops 0 / 1 / 3 ft against a 4 ft target and every target '
+    'row (engine D reading danger_space with loops over known lists unrolled), the rows returned satisfy the statement; '
+    'a counterexample names the rows',
 ]
 NOT_DECIDED = ['that the scans are correct over arbitrary row lists (loop correctness), monotonicity in target height']
 
@@ -72,6 +75,24 @@ def run(prog: Program, rep, thorough: bool) -> None:
     td = prog.module(C.M_TD)
     ds = prog.func(C.M_TD, 'HitResult.danger_space')
     rep.saw(ds)
+    rep.rule('C16.R4', 'no counterexample in the finite family of row lists (any shape of the function)', 1)
+    wit = witness_search(prog, rep, 'C16.R4')
+    if wit:
+        rep.fail('C16.R4', td.path, ds.node.lineno, ds.qualname, 'counterexample', 'counterexample: ' + wit)
+    elif rep.extra.get('witness_search', {}).get('inputs_read'):
+        rep.ok('C16.R4', ds.where, f'{rep.extra["witness_search"]["inputs_read"]} row lists read: bounds bracket the target row, '
+               f'rows between are in the band, bounds are out of it or the ends')
+    else:
+        rep.undecided('C16.R4', ds.where, 'finite family', f'danger_space not readable: {rep.extra.get("witness_search", {}).get("unreadable")}')
+    try:
+        _shape_rules(prog, rep, td, ds)
+    except AnalysisError as exc:
+        if not wit:
+            raise
+        rep.note(f'shape rules not applicable to this danger_space ({exc}); the statement is refuted by the counterexample')
+
+
+def _shape_rules(prog: Program, rep, td, ds) -> None:
     # the scans: the nested functions that loop over the trajectory rows; other nested functions are helpers, inlined
     # by the evaluator where a scan calls them
     def _loops_over_rows(f: Func) -> bool:
@@ -283,6 +304,73 @@ def run(prog: Program, rep, thorough: bool) -> None:
                  f'it must be H/2')
 
 
+def witness_search(prog: Program, rep, rule: str) -> Optional[str]:
+    """Counterexample search over a finite family, whatever the shape of danger_space: engine D reads the function with
+    every `for` over a known list unrolled (opt-in) on row lists of length 1-4 whose drops are 0, 1 or 3 against a half
+    height of 2 (so 0 and 1 are within the band of each other, 3 is outside it of 0 and exactly on its edge of 1), for
+    every target row.  The statement is then checked on the rows returned: the bounds bracket the target row, every row
+    strictly between them is within half the height of the target row's drop, and each bound is the first / last row
+    or a row at least half the height away.  Only a violation carries weight (it names the rows); finding none proves
+    nothing and is reported as such."""
+    import itertools
+    from fractions import Fraction
+    td = prog.module(C.M_TD)
+    ds = prog.func(C.M_TD, 'HitResult.danger_space')
+    hr = prog.cls(C.M_TD, 'HitResult')
+    idx_box = {}
+
+    def h_index(ev_, func, args, kwargs, st_, self_val):
+        return Scalar(idx_box['k'])
+    ev = Evaluator(prog, hooks={**C.pref_hooks(prog), 'call:HitResult.index_at_distance': h_index,
+                                'call:HitResult.__check_extra__': lambda *a: NONE})
+    ev.unroll = True
+    tried = 0
+    unreadable = None
+    for n in (1, 2, 3, 4):
+        for drops in itertools.product((0, 1, 3), repeat=n):
+            for k in range(n):
+                idx_box['k'] = k
+                st = State()
+                rows = [C.mk_row(ev, st, prog, f'r{i}_', {'target_drop': C.mk_quantity(ev, st, prog, 'Distance', Scalar(Fraction(d)), 'Foot'),
+                                                           'distance': C.mk_quantity(ev, st, prog, 'Distance', Scalar(Fraction(100 * i)), 'Yard')})
+                        for i, d in enumerate(drops)]
+                selfv = ev.new_inst(st, hr, {'trajectory': ev.new_list(st, rows), 'extra': Const(True), 'shot': SymObj('shot')})
+                ev.evals, ev.budget = 0, 60000
+                try:
+                    r, st = ev.call_value(ds, [C.mk_quantity(ev, st, prog, 'Distance', Scalar(Fraction(100 * k)), 'Yard'),
+                                               C.mk_quantity(ev, st, prog, 'Distance', Scalar(Fraction(4)), 'Foot')],
+                                          self_val=selfv, st=st)
+                except Undecided as exc:
+                    unreadable = str(exc)
+                    continue
+                outs = [x for _p, x in cond_leaves(r)]
+                if len(outs) != 1 or not isinstance(outs[0], Inst):
+                    unreadable = f'result {outs!r}'
+                    continue
+                tried += 1
+                fields = st.heap[outs[0].oid]
+                pos = {row.oid: i for i, row in enumerate(rows)}
+                b, e, a = (pos.get(getattr(fields.get(f), 'oid', None)) for f in ('begin', 'end', 'at_range'))
+                where = f'drops {list(drops)} (feet), target height 4 ft, target row {k}'
+                if b is None or e is None or a is None:
+                    return f'{where}: the danger space is not bounded by rows of the trajectory'
+                if a != k:
+                    return f'{where}: the row reported as the target row is row {a}'
+                if not b <= k <= e:
+                    return f'{where}: bounds are rows {b} and {e}, which do not bracket the target row'
+                far = lambda i: abs(drops[i] - drops[k]) >= 2
+                inside = [i for i in range(b + 1, e) if i != k and far(i)]
+                if inside:
+                    return (f'{where}: bounds are rows {b} and {e}, but row {inside[0]} between them has drop {drops[inside[0]]}, '
+                            f'{abs(drops[inside[0]] - drops[k])} ft from the target row\'s: not within half the height')
+                if b != 0 and b != k and not far(b) or (b == k and k != 0):
+                    return f'{where}: the begin bound is row {b}, neither the first row nor a row half the height away'
+                if e != n - 1 and e != k and not far(e) or (e == k and k != n - 1):
+                    return f'{where}: the end bound is row {e}, neither the last row nor a row half the height away'
+    rep.extra['witness_search'] = {'inputs_read': tried, 'unreadable': unreadable}
+    return None
+
+
 TDF = 'py_ballisticcalc/trajectory_data/_trajectory_data.py'
 VARIANTS = [
     Variant('sentinel-guard-weakened', 'break', [(TDF, '        if (index := self.index_at_distance(at_range)) < 0:', '        if (index := self.index_at_distance(at_range)) < -1:')], 'C16.R3', '', 'pass'),
@@ -295,6 +383,7 @@ VARIANTS = [
     Variant('twin-drop-helper', 'twin', [(TDF, '        def find_begin_danger(row_num: int) -> TrajectoryData:', '        def drop_of(row: TrajectoryData) -> float:\n            return row.target_drop.raw_value\n\n        def find_begin_danger(row_num: int) -> TrajectoryData:'), (TDF, '            center_row = self.trajectory[row_num]\n            for prime_row in reversed(self.trajectory[:row_num]):\n                if abs(prime_row.target_drop.raw_value - center_row.target_drop.raw_value) >= target_height_half:', '            center_drop = drop_of(self.trajectory[row_num])\n            for prime_row in reversed(self.trajectory[:row_num]):\n                if abs(drop_of(prime_row) - center_drop) >= target_height_half:')], None, 'the centre taken through a nested helper and kept as a number'),
     Variant('drops-in-preferred-drop-unit', 'break', [(TDF, '        def find_begin_danger(row_num: int) -> TrajectoryData:', '        def drop_of(row: TrajectoryData) -> float:\n            return row.target_drop >> PreferredUnits.drop\n\n        def find_begin_danger(row_num: int) -> TrajectoryData:'), (TDF, '            center_row = self.trajectory[row_num]\n            for prime_row in reversed(self.trajectory[:row_num]):\n                if abs(prime_row.target_drop.raw_value - center_row.target_drop.raw_value) >= target_height_half:', '            center_drop = drop_of(self.trajectory[row_num])\n            for prime_row in reversed(self.trajectory[:row_num]):\n                if abs(drop_of(prime_row) - center_drop) >= target_height_half:')], 'C16.R2', 'seeded change C16/4 in part: drops in the preferred drop unit against a raw half height'),
     Variant('centre-from-look-angle', 'break', [(TDF, '            center_row = self.trajectory[row_num]\n            for prime_row in self.trajectory[row_num + 1:]:\n                if abs(center_row.target_drop.raw_value - prime_row.target_drop.raw_value) >= target_height_half:', '            center_row = self.trajectory[row_num]\n            for prime_row in self.trajectory[row_num + 1:]:\n                if abs(center_row.target_drop.raw_value - (prime_row.height.raw_value - prime_row.distance.raw_value * math.tan(_look_angle.raw_value))) >= target_height_half:')], 'C16.R2', 'seeded change C16/6 in part: the scanned row\'s drop recomputed from the look_angle argument'),
+    Variant('whole-trajectory-band', 'break', [(TDF, '        return DangerSpace(self.trajectory[index],\n                           target_height,\n                           find_begin_danger(index),\n                           find_end_danger(index),', '        c_ = self.trajectory[index].target_drop.raw_value\n        hits = [i for i, row in enumerate(self.trajectory) if abs(row.target_drop.raw_value - c_) < target_height_half] or [index]\n        return DangerSpace(self.trajectory[index],\n                           target_height,\n                           self.trajectory[max(hits[0] - 1, 0)],\n                           self.trajectory[min(hits[-1] + 1, len(self.trajectory) - 1)],')], 'C16.R4', 'seeded change C16/2 in spirit: first / last in-band row over the whole trajectory'),
     Variant('twin-explicit-or', 'twin', [(TDF, 'if abs(center_row.target_drop.raw_value - prime_row.target_drop.raw_value) >= target_height_half:', 'if (center_row.target_drop.raw_value - prime_row.target_drop.raw_value) >= target_height_half or (prime_row.target_drop.raw_value - center_row.target_drop.raw_value) >= target_height_half:')], None),
     Variant('twin-guard-eq-minus-one', 'twin', [(TDF, '        if (index := self.index_at_distance(at_range)) < 0:', '        if (index := self.index_at_distance(at_range)) == -1:')], None),
     Variant('twin-guard-le-minus-one', 'twin', [(TDF, '        if (index := self.index_at_distance(at_range)) < 0:', '        if (index := self.index_at_distance(at_range)) <= -1:')], None),
